@@ -81,7 +81,7 @@ func (e *Engine) Discharge(o *Obligation, dir string, idx int, timeoutS int, see
 		return
 	}
 	c := o.Ctx
-	hyps := c.facts[:o.NFacts]
+	hyps := relevantFacts(c.facts[:o.NFacts], c.triggers[:o.NFacts], o.Goal)
 	var gv []*Term
 	for _, in := range c.inputs {
 		gv = append(gv, in)
@@ -95,7 +95,7 @@ func (e *Engine) Discharge(o *Obligation, dir string, idx int, timeoutS int, see
 		if sp.pre != "" {
 			f = strings.TrimSuffix(file, ".smt2") + "-" + sp.name + ".smt2"
 		}
-		txt := "(set-option :produce-models true)\n" + sp.pre + preludeVal + body.Text
+		txt := "; obligation: " + o.Name + "\n; clause: " + strings.ReplaceAll(o.Src, "\n", " ") + "\n(set-option :produce-models true)\n" + sp.pre + preludeVal + body.Text
 		os.WriteFile(f, []byte(txt), 0o644)
 		return f
 	}
@@ -155,4 +155,44 @@ func firstLines(s string, n int) string {
 		ls = ls[:n]
 	}
 	return strings.Join(ls, "\n")
+}
+
+// relevantFacts keeps untriggered facts and those triggered facts whose trigger term occurs in the goal or in a kept fact.
+func relevantFacts(facts, trigs []*Term, goal *Term) []*Term {
+	reach := map[int]bool{}
+	var mark func(t *Term)
+	mark = func(t *Term) {
+		if reach[t.id] {
+			return
+		}
+		reach[t.id] = true
+		for _, a := range t.args {
+			mark(a)
+		}
+	}
+	mark(goal)
+	keep := make([]bool, len(facts))
+	for i, f := range facts {
+		if trigs[i] == nil {
+			keep[i] = true
+			mark(f)
+		}
+	}
+	for changed := true; changed; {
+		changed = false
+		for i, f := range facts {
+			if !keep[i] && reach[trigs[i].id] {
+				keep[i] = true
+				mark(f)
+				changed = true
+			}
+		}
+	}
+	var out []*Term
+	for i, f := range facts {
+		if keep[i] {
+			out = append(out, f)
+		}
+	}
+	return out
 }
